@@ -4,7 +4,7 @@ from typing import Any, Dict, Iterable, Iterator, List, Optional, Tuple
 
 from vkit.prog import P
 
-ERR_FORMS = ("default", "class", "instance", "factory")
+ERR_FORMS = ("default", "class", "instance", "factory", "method")
 CALLABLE_KINDS = ("function", "method", "static", "class", "pget", "pset", "pdel", "init", "new", "call")
 
 
@@ -52,10 +52,11 @@ def make_cond(ids: Ids, rng, names: List[str], role: str, is_async: bool, forms=
     err = rng.choice(errs or ERR_FORMS)
     if form in ("adef", "aw") and err in ("default", "class"):
         # coroutine conditions cannot be recomputed: the documentation demands an explicit error
-        err = rng.choice(("instance", "factory"))
+        err = rng.choice(("instance", "factory", "method"))
     c = {"id": cid, "args": pick_args(rng, names, extra), "err": err, "form": form}
-    if err == "factory":
+    if err in ("factory", "method"):
         c["eargs"] = pick_args(rng, names, extra)
+        c["edefaults"] = [n for n in c["eargs"] if rng.random() < 0.3]
     return c
 
 
@@ -69,8 +70,11 @@ def make_snap(ids: Ids, rng, names: List[str], is_async: bool, forms=None) -> Di
 
 def make_inv(ids: Ids, rng, check_on: str = "CALL", errs=None, forms=("def", "lambda")) -> Dict[str, Any]:
     iid = ids.new("i")
-    return {"id": iid, "check_on": check_on, "err": rng.choice(errs or ERR_FORMS), "self": rng.random() < 0.85,
-            "form": rng.choice(forms)}
+    err = rng.choice(errs or ERR_FORMS)
+    inv = {"id": iid, "check_on": check_on, "err": err, "self": rng.random() < 0.85, "form": rng.choice(forms)}
+    if err in ("factory", "method"):
+        inv["eargs"] = ["self"] if rng.random() < 0.5 else []
+    return inv
 
 
 def member_name(kind: str, base: str) -> str:
